@@ -8,6 +8,7 @@ import (
 	"io"
 	"net"
 	"net/http"
+	"strings"
 	"sync"
 	"time"
 
@@ -482,15 +483,30 @@ func HTTPTagWork(tag string) func(*ScriptedClient, net.Conn, *msg.StartWorkConn)
 	}
 }
 
-// KindWork dispatches by proxy-name prefix: names starting with "h" speak HTTP.
+// UDPSinkWork behaves like frpc on a udp proxy's work connection: it reads
+// protocol messages (UDPPacket, Ping) until the server closes the connection.
+func UDPSinkWork(_ *ScriptedClient, wc net.Conn, _ *msg.StartWorkConn) {
+	defer wc.Close()
+	for {
+		if _, err := msg.ReadMsg(wc); err != nil {
+			return
+		}
+	}
+}
+
+// KindWork dispatches by proxy name: names starting with "h" speak HTTP, names
+// containing "udp" get the udp message loop, everything else the tag line + echo.
 func KindWork(tag string) func(*ScriptedClient, net.Conn, *msg.StartWorkConn) {
 	h, t := HTTPTagWork(tag), TagWork(tag)
 	return func(sc *ScriptedClient, wc net.Conn, s *msg.StartWorkConn) {
-		if len(s.ProxyName) > 0 && s.ProxyName[0] == 'h' {
+		switch {
+		case len(s.ProxyName) > 0 && s.ProxyName[0] == 'h':
 			h(sc, wc, s)
-			return
+		case strings.Contains(s.ProxyName, "udp"):
+			UDPSinkWork(sc, wc, s)
+		default:
+			t(sc, wc, s)
 		}
-		t(sc, wc, s)
 	}
 }
 
